@@ -1,4 +1,5 @@
 import UF.Props.C04Text
+import UF.Props.C04Perm
 import UF.Props.C07Text
 import UF.Props.C08Engine
 import UF.Props.C08Order
